@@ -147,8 +147,9 @@ impl WrappedTable {
     pub uninterp spec fn native_rebuild(&self) -> bool;
     /// for the union-find table: the canonical id of v (column 1 of the row of a displaced id)
     pub uninterp spec fn canon(&self, v: Value) -> Value;
-    // A-db: DisplacedTable::get_row (unit disp verifies expand / get_row_column, get_row itself uses a pool closure):
-    // a row [k, canonical id of k, timestamp] exists exactly for displaced ids; a missing row means k is canonical
+    // A-db: DisplacedTable::get_row: a row [k, canonical id of k, timestamp] exists exactly for displaced ids; a missing row
+    // means k is canonical. PROVED for the real function in unit disp (get_row contract, invariant `exactly the non-canonical ids`);
+    // assumed here only because the bridge sees the table through `dyn Table`
     #[verifier::external_body]
     pub fn get_row(&self, key: &[Value]) -> (r: Option<Row>)
         requires key@.len() == 1,
